@@ -17,7 +17,7 @@ NA = {
  "C17": "Keyset derivation is a deterministic function of (keyset, salt); it reads no RNG, clock or I/O.",
 }
 
-PENDING = {k: "claimed in DESIGN.md; its simulation world is still being built in this session (entry is removed when the check is registered)" for k in ["C05","C09","C14","C18","C19","C20"]}
+PENDING = {k: "claimed in DESIGN.md; its simulation world is still being built in this session (entry is removed when the check is registered)" for k in ["C05","C09","C14","C19","C20"]}
 
 CHECKS = {
  "C07": dict(engine="stream", design="§3 C07",
@@ -28,6 +28,10 @@ CHECKS = {
    technique="deterministic simulation: seeded operation histories against a reference keyset model, key-ID collisions scripted through the RNG seam, rapid-minimised replay",
    text="Seeded exploration of keyset.Manager operation histories (up to 60 ops quick / 300 thorough, branching through NewManagerFromHandle of earlier handles, started empty or from a parsed keyset with DISABLED/DESTROYED keys). The RNG seam scripts the key-ID draws (live, deleted, burned, 0, 2^32-1) so the collision re-draw loop is exercised on every Add. After every operation the real keyset is compared with a reference model and the stated invariants are enforced: distinct IDs, exactly one ENABLED primary, errors leave the keyset unchanged, primary cannot be disabled/deleted, non-enabled cannot become primary, earlier handles keep their snapshot, ID requirements are kept. Sampling, not proof.",
    note="Trusts key.Equal of the key types used and the harness model; the property's silent cases (re-adding a deleted fixed ID, Enable of DESTROYED, ops on absent IDs) are allowed either way."),
+ "C18": dict(engine="sched", design="§3 C18",
+   technique="deterministic simulation: seeded baton scheduler over yield points inserted into tink's sources (go -overlay), sequential-equality oracle plus ThreadSanitizer run under the same deterministic schedules, rapid-minimised replay",
+   text="Seeded exploration of interleavings: at check time every statement of every non-test source file of /repo gets a yield call (instrumented copies via -overlay, /repo untouched); 2..6 tasks use one shared factory primitive / handle / registry, only the baton holder runs, and a rapid-drawn plan decides every preemption, so one seed is one exact interleaving. Oracle 1: each concurrent call returns byte-for-byte what it returns alone (per-task RNG lanes make even Encrypt/Sign functions of their inputs; ML-KEM-style library-internal randomness is checked semantically), the shared read-only input arena is unchanged at every baton pass. Oracle 2: the same seeds run under -race with no harness-induced happens-before between tasks, so conflicting accesses are reported even when serialised, deterministically; TSan de-duplication is off so race findings shrink. Workload covers every catalogued key type of every class through the real factories, legacy adapters over a stub key manager, handle reads, primitive construction, registry lookups and key generation. Sampling, not proof.",
+   note="Yield points exist in tink code only (stdlib/x-crypto/protobuf are atomic between them); TSan's bounded history; amd64 store ordering for the norace spin baton; registry writes are outside the property and the workload."),
 }
 
 def main():
@@ -59,6 +63,8 @@ def main():
         "engines": [
             {"name": "vsim", "path": "/verif/tools/vsim", "serves_properties": sorted(CHECKS), "kind_free_text": "orchestrator: builds each world's test binary from /repo's working tree, runs 16 seeded worker processes, merges coverage into evidence, writes replay files"},
             {"name": "stream", "path": "/verif/sim/worlds/stream", "serves_properties": ["C07"], "kind_free_text": "simulated device/medium/source around real streaming AEAD"},
+            {"name": "instr", "path": "/verif/tools/instr", "serves_properties": ["C18"], "kind_free_text": "go/ast-based yield-point inserter producing a go build -overlay"},
+            {"name": "sched", "path": "/verif/sim/worlds/sched", "serves_properties": ["C18"], "kind_free_text": "baton scheduler (simsched) + sequential oracle + race detector under deterministic schedules"},
             {"name": "manager", "path": "/verif/sim/worlds/manager", "serves_properties": ["C11"], "kind_free_text": "operation histories of the real keyset.Manager vs reference model, scripted RNG"},
         ],
         "checks": checks,
